@@ -327,6 +327,12 @@ class Kernel:
             for this_stream in list(stream) if isinstance(stream, set) else [stream]:
                 await this_stream.send_multipart(parts)
 
+    async def flush_stdout(self):
+        """Wait until the housekeep task has sent everything queued so far."""
+        handshake_q = asyncio.Queue(0)
+        await self.housekeep_q.put(["handshake", handshake_q, 0])
+        await handshake_q.get()
+
     async def shell_handler(self, shell_socket, wire_msg):
         """Handle shell messages."""
 
@@ -360,6 +366,8 @@ class Kernel:
             try:
                 self.ast_ctx.parse(code)
                 result = await self.ast_ctx.eval()
+                # a value whose repr() fails is an error of the cell, like any other
+                result_repr = repr(result) if result is not None else None
                 await Function.waiter_sync()
                 self.global_ctx.set_auto_start(True)
                 self.global_ctx.start()
@@ -391,6 +399,8 @@ class Kernel:
                 del content["execution_count"], content["status"]
                 await self.send(self.iopub_socket, "error", content, parent_header=msg["header"])
 
+                # what the cell printed before it failed is sent before idle, as for a cell that succeeds
+                await self.flush_stdout()
                 content = {
                     "execution_state": "idle",
                 }
@@ -404,7 +414,7 @@ class Kernel:
             if result is not None:
                 content = {
                     "execution_count": self.execution_count,
-                    "data": {"text/plain": repr(result)},
+                    "data": {"text/plain": result_repr},
                     "metadata": {},
                 }
                 await self.send(
@@ -443,9 +453,7 @@ class Kernel:
             # otherwise VSCode doesn't display stdout.  We do a handshake with the
             # housekeep task to ensure any queued messages get processed.
             #
-            handshake_q = asyncio.Queue(0)
-            await self.housekeep_q.put(["handshake", handshake_q, 0])
-            await handshake_q.get()
+            await self.flush_stdout()
 
         elif msg["header"]["msg_type"] == "kernel_info_request":
             content = {
